@@ -680,6 +680,9 @@ class Interp:
     def binop(self, fr, op, a, b, rv):
         if isinstance(a, ByteOf): a = self.byte_term(a)
         if isinstance(b, ByteOf): b = self.byte_term(b)
+        # a byte of a symbolic ASCII string used as a number
+        if type(a).__name__ == 'CharOf': a = Term("(str.to_code (str.at %s %d))" % (a.t.s, a.i), 'Int')
+        if type(b).__name__ == 'CharOf': b = Term("(str.to_code (str.at %s %d))" % (b.t.s, b.i), 'Int')
         sym = isinstance(a, Term) or isinstance(b, Term)
         if op in ('AddWithOverflow', 'SubWithOverflow', 'MulWithOverflow'):
             ty = self.int_type_of(fr, rv)
@@ -743,7 +746,13 @@ class Interp:
             if 'Bool' in (sa, sb) or isinstance(a, bool) or isinstance(b, bool):
                 o = {'BitAnd': 'and', 'BitOr': 'or', 'BitXor': 'xor'}[op]
                 return Term("(%s %s %s)" % (o, smt_bool(a), smt_bool(b)), 'Bool')
-            raise Unsupported("bitwise op on symbolic ints")
+            # machine integers: through bit-vectors of the operation's width (cvc5 int2bv / bv2nat)
+            ty = self.int_type_of(fr, rv) if fr is not None else None
+            w = {'u8': 8, 'u16': 16, 'u32': 32, 'u64': 64, 'usize': 64}.get(ty)
+            if w is None: raise Unsupported("bitwise op on symbolic ints of type %s" % ty)
+            o = {'BitAnd': 'bvand', 'BitOr': 'bvor', 'BitXor': 'bvxor'}[op]
+            ia = self.byte_term(a).s if isinstance(a, ByteOf) else smt_int(a); ib = self.byte_term(b).s if isinstance(b, ByteOf) else smt_int(b)
+            return Term("(bv2nat (%s ((_ int2bv %d) %s) ((_ int2bv %d) %s)))" % (o, w, ia, w, ib), 'Int')
         if op in ('Shl', 'Shr', 'ShlUnchecked', 'ShrUnchecked') and not sym:
             ty = self.int_type_of(fr, rv)
             r = a << b if op.startswith('Shl') else a >> b
